@@ -6,7 +6,7 @@ import json, os, re, subprocess, sys, time
 HERE = os.path.dirname(os.path.dirname(os.path.abspath(__file__)))
 REPO = os.environ.get('STDNUM_REPO', '/repo')
 EXTRA = {'C06-1': ['C17'], 'C06-2': ['C05'], 'C05-1': ['C06'], 'C17-2': ['C06'], 'C17-4': ['C06'], 'C13-2': ['C10'], 'C09-2': ['C13'],
-         'C07-3': ['C15'], 'C03-2': ['C09'], 'C12-4': ['C01'], 'C09-5': ['C13'], 'C18-5': ['C01'], 'C05-4': ['C06'], 'C06-4': ['C05'], 'C10-8': ['C13'], 'C11-9': ['C13'], 'C02-7': ['C16'], 'C17-6': ['C07'], 'C13-7': ['C12'], 'C02-9': ['C16'], 'C04-11': ['C11'], 'C12-10': ['C11'], 'C10-11': ['C13'], 'C04-15': ['C08', 'C05']}
+         'C07-3': ['C15'], 'C03-2': ['C09'], 'C12-4': ['C01'], 'C09-5': ['C13'], 'C18-5': ['C01'], 'C05-4': ['C06'], 'C06-4': ['C05'], 'C10-8': ['C13'], 'C11-9': ['C13'], 'C02-7': ['C16'], 'C17-6': ['C07'], 'C13-7': ['C12'], 'C02-9': ['C16'], 'C04-11': ['C11'], 'C12-10': ['C11'], 'C10-11': ['C13'], 'C04-15': ['C08', 'C05'], 'C13-12': ['C09']}
 
 
 def main():
